@@ -5,6 +5,7 @@ package main
 
 import (
 	"fmt"
+	"runtime"
 	"strconv"
 	"strings"
 	"time"
@@ -13,6 +14,7 @@ import (
 	"github.com/form3tech-oss/f1/v2/internal/verifharness/hlib"
 	"github.com/form3tech-oss/f1/v2/internal/verifshim/vrt"
 	"github.com/form3tech-oss/f1/v2/internal/verifshim/vtime"
+	"github.com/form3tech-oss/f1/v2/pkg/f1/scenarios"
 	f1testing "github.com/form3tech-oss/f1/v2/pkg/f1/testing"
 )
 
@@ -22,7 +24,8 @@ const (
 	bFail    = "Fail"
 	bFailNow = "FailNow"
 	bPanic   = "panic"
-	bBlock   = "block" // body only: never returns (completion-timeout ending)
+	bBlock   = "block"  // body only: never returns (completion-timeout ending)
+	bGoexit  = "Goexit" // body only: runtime.Goexit, what FailNow of a standard library testing.T does
 )
 
 type iter struct {
@@ -56,6 +59,8 @@ func act(t *f1testing.T, b string) {
 		t.FailNow()
 	case bPanic:
 		panic("scripted panic")
+	case bGoexit:
+		runtime.Goexit()
 	}
 }
 
@@ -116,7 +121,7 @@ func (p program) spec() *hlib.RunSpec {
 	return rs
 }
 
-func stops(b string) bool { return b == bFailNow || b == bPanic }
+func stops(b string) bool { return b == bFailNow || b == bPanic || b == bGoexit }
 
 func check(r *hlib.Rec, p program) {
 	r.Eval()
@@ -603,8 +608,96 @@ func suiteNested() hlib.Suite {
 	}}
 }
 
+// suiteGoexit: a body that ends its goroutine (an assertion made on a standard
+// library testing.T inside the iteration does that). The worker is gone, but the
+// cleanups the iteration had registered still run exactly once, in reverse order,
+// and the run still ends with setup's cleanups.
+func suiteGoexit() hlib.Suite {
+	return hlib.Suite{Name: "programs/body-ends-its-goroutine", Run: func(r *hlib.Rec) {
+		for _, before := range lists([]string{bOK, bPanic}, 2) {
+			for _, first := range []bool{true, false} {
+				for _, mode := range []string{"constant", "users"} {
+					for _, conc := range []int{1, 2} {
+						for _, ending := range []string{"duration", "cancel"} {
+							if len(before) == 0 || !r.Mine() {
+								continue
+							}
+							its := []iter{{before: before, outcome: bGoexit, after: []string{bOK}}, {before: []string{bOK}, outcome: bOK}}
+							if !first {
+								its[0], its[1] = its[1], its[0]
+							}
+							check(r, program{setup: bOK, setupCleanups: []string{bOK}, iters: its, mode: mode, ending: ending, conc: conc})
+						}
+					}
+				}
+			}
+		}
+	}}
+}
+
+// suiteSecondRun: the same registered scenario run twice (a program embedding f1
+// that executes more than once). Each run has its own setup, exactly once and
+// before its iterations, and its own setup cleanups after them.
+func suiteSecondRun() hlib.Suite {
+	return hlib.Suite{Name: "same-registered-scenario-run-twice", Run: func(r *hlib.Rec) {
+		for _, mode := range []string{"constant", "users"} {
+			for _, firstSetup := range []string{bOK, bFail, bPanic} {
+				for _, secondSetup := range []string{bOK, bFailNow} {
+					if !r.Mine() {
+						continue
+					}
+					r.Eval()
+					input := fmt.Sprintf("mode=%s: one registered scenario, two runs; setup of run 1 ends %s, of run 2 %s", mode, firstSetup, secondSetup)
+					r.SampleCase(input)
+					var ev []string
+					setups := 0
+					scs := scenarios.New().Add(&scenarios.Scenario{Name: "s", ScenarioFn: func(t *f1testing.T) f1testing.RunFn {
+						setups++
+						n := setups
+						ev = append(ev, fmt.Sprintf("setup%d", n))
+						t.Cleanup(func() { ev = append(ev, fmt.Sprintf("setup-cleanup%d", n)) })
+						act(t, map[int]string{1: firstSetup, 2: secondSetup}[n])
+						return func(t *f1testing.T) {
+							ev = append(ev, fmt.Sprintf("body-of-setup%d", n))
+							if mode == "users" {
+								vtime.Sleep(50 * time.Millisecond)
+							}
+						}
+					}})
+					for run, setup := range []string{firstSetup, secondSetup} {
+						ev = nil
+						rs := &hlib.RunSpec{Mode: mode, CompletionTimeout: time.Second, Quiet: true, Scenarios: scs,
+							Opts: options.RunOptions{MaxDuration: 5 * time.Second, Concurrency: 1, MaxIterations: 2, IgnoreDropped: true}}
+						if mode == "constant" {
+							rs.Flags = map[string]string{"rate": "1/100ms", "distribution": "none"}
+						}
+						res := hlib.RunOnce(rs, -1, 0, 60*time.Second)
+						if res.BuildErr != nil || res.Out.Status != vrt.StOK {
+							r.Fail("C06/run-broken", "second-run", fmt.Sprint(res.BuildErr, res.Out.Status, res.Out.Crash), input)
+							break
+						}
+						n := run + 1
+						want := []string{fmt.Sprintf("setup%d", n)}
+						if setup == bOK {
+							want = append(want, fmt.Sprintf("body-of-setup%d", n), fmt.Sprintf("body-of-setup%d", n))
+						}
+						want = append(want, fmt.Sprintf("setup-cleanup%d", n))
+						if fmt.Sprint(ev) != fmt.Sprint(want) {
+							r.Fail("C06/setup-once", fmt.Sprintf("per-run/run-%d", n), fmt.Sprintf("run %d of the scenario: events %v, expected %v", n, ev, want), input)
+						}
+						if (setup != bOK) != res.Failed {
+							r.Fail("C06/verdict", fmt.Sprintf("per-run/run-%d", n), fmt.Sprintf("run %d: setup ends %s, Failed()=%v", n, setup, res.Failed), input)
+						}
+					}
+					r.Distinct(mode + firstSetup + secondSetup)
+				}
+			}
+		}
+	}}
+}
+
 func suites(tier string) []hlib.Suite {
-	return []hlib.Suite{suiteSetup(true), suiteBodies(tier != "quick"), suiteStages(), suiteNested()}
+	return []hlib.Suite{suiteSetup(true), suiteBodies(tier != "quick"), suiteStages(), suiteNested(), suiteGoexit(), suiteSecondRun()}
 }
 
 func main() { hlib.EnumMain("C06", suites) }
